@@ -154,6 +154,26 @@ def cache_state(t):
     return "ok"
 
 
+def cell_obs(t):
+    """what the public getters say about the unit cell (C17)"""
+    o = {"have": bool(t._have_unitcell)}
+    try:
+        o["vectors_none"] = t.unitcell_vectors is None
+    except Exception as e:  # noqa: BLE001
+        o["vectors_none"] = errclass(e)
+    try:
+        v = t.unitcell_volumes
+        o["volumes"] = "none" if v is None else ["array", int(len(v)), bool(np.all(np.isfinite(v)))]
+    except Exception as e:  # noqa: BLE001
+        o["volumes"] = errclass(e)
+    try:
+        t._check_valid_unitcell()
+        o["check_valid"] = "ok"
+    except Exception as e:  # noqa: BLE001
+        o["check_valid"] = type(e).__name__
+    return o
+
+
 def rmsd_probe(md, t):
     """max |rmsd(precentered=True) - rmsd(precentered=False)| over reference frames of t itself, on deep copies"""
     tr = t._rmsd_traces
@@ -218,6 +238,9 @@ def run_case(md, case):
             if not all(0 <= r < len(regs) for r in op_regs(op)):
                 steps.append("NoReg")
                 continue
+            structural = name in ("slice", "join", "mdjoin", "stack", "atom_slice", "remove_solvent")
+            src_reg = regs[op[1][0]] if name == "mdjoin" else regs[op[1]]
+            src_have = bool(src_reg._have_unitcell) if structural else None
             if name == "slice":
                 _, r, kspec, cp = op[:4]
                 t = regs[r]
@@ -267,6 +290,10 @@ def run_case(md, case):
                     prop.append({"step": si, "kind": "field-not-numpy-hstack", "field": "xyz"})
                 if not np.array_equal(new.time, t._time):
                     prop.append({"step": si, "kind": "field-not-left-operand", "field": "time"})
+                for nm in ("_unitcell_lengths", "_unitcell_angles"):
+                    a, b = getattr(new, nm), getattr(t, nm)
+                    if (a is None) != (b is None) or (a is not None and not np.array_equal(a, b)):
+                        prop.append({"step": si, "kind": "field-not-left-operand", "field": nm})
             elif name == "atom_slice":
                 _, r, idx, inplace = op
                 t = regs[r]
@@ -282,6 +309,10 @@ def run_case(md, case):
                     prop.append({"step": si, "kind": "field-not-numpy-index", "field": "xyz(atoms)"})
                 if not np.array_equal(out.time, tsnap):
                     prop.append({"step": si, "kind": "field-not-numpy-index", "field": "time"})
+                if t._have_unitcell:
+                    for nm in ("_unitcell_lengths", "_unitcell_angles"):
+                        if getattr(out, nm) is None or not np.array_equal(getattr(out, nm), getattr(t, nm)):
+                            prop.append({"step": si, "kind": "field-not-numpy-index", "field": nm})
             elif name == "remove_solvent":
                 _, r, inplace = op
                 out = regs[r].remove_solvent(inplace=inplace)
@@ -332,6 +363,13 @@ def run_case(md, case):
             else:
                 raise RuntimeError("unknown op %s" % name)
             steps.append("ok")
+            if structural:
+                res_t = new if new is not None else src_reg
+                if bool(res_t._have_unitcell) != src_have:
+                    prop.append({"step": si, "kind": "cell-presence-changed", "op": name})
+                if name in ("join", "mdjoin", "atom_slice", "remove_solvent") and new is not None and \
+                        (new._unitcell_lengths is None) != (new._unitcell_angles is None):
+                    prop.append({"step": si, "kind": "half-set-cell-produced", "op": name})
             if new is not None:
                 regs.append(new)
                 # ---- model-free sharing oracle
@@ -380,6 +418,7 @@ def run_case(md, case):
             "traces": None if tr is None else np.atleast_1d(np.asarray(tr, dtype=np.float64)).tolist(),
             "traces_ndim": None if tr is None else int(np.asarray(tr).ndim),
             "tdef": bool(t._time_default_to_arange), "cache": cache_state(t), "rmsd_diff": rmsd_probe(md, t),
+            "cell": cell_obs(t),
         })
     share = []
     for x in range(len(arrays)):
